@@ -619,7 +619,10 @@ def fields_view(spec, f):
     """Same view computed from the generator's field dict (the expectation)."""
     out = {}
     for a in spec.attrs:
-        out[a] = canon(norm_attr(spec, a, f.get(a)))
+        v = f.get(a)
+        if a == "roles" and v is not None:
+            v = roles_to_wire(v)
+        out[a] = canon(norm_attr(spec, a, v))
     return out
 
 
@@ -687,6 +690,147 @@ def _truthy(v):
         return bool(v)
     except Exception:
         return True
+
+
+def offenders(spec, wire):
+    """All places of ``wire`` the oracle does not judge 'ok': [(where, verdict, input_class)] in wire order."""
+    out = []
+    if type(wire) is not list or not wire:
+        return [("envelope", "reject", vclass(wire))]
+    if len(wire) not in spec.lengths:
+        out.append(("length", "reject", "length-%d" % len(wire)))
+    pm = is_payload_mode(spec, wire)
+    for i, p in enumerate(spec.layout):
+        idx = i + 1
+        if idx >= len(wire):
+            break
+        v, c = judge_pos(spec, p, wire[idx], wire)
+        if v != "ok":
+            out.append((p.name, v, c))
+        if p.kind == "dict" and type(wire[idx]) is dict:
+            d = wire[idx]
+            for o in spec.opts:
+                if o.key in d:
+                    v, c = judge_opt(spec, o, d[o.key], pm)
+                    if v != "ok":
+                        out.append(("%s.%s" % (p.name, o.key), v, c))
+    if spec.payload:
+        if len(wire) > spec.fixed_len and type(wire[spec.fixed_len]) is not list:
+            out.append(("args", "grey", vclass(wire[spec.fixed_len])))
+        if len(wire) > spec.fixed_len + 1:
+            kw = wire[spec.fixed_len + 1]
+            if type(kw) is not dict or any(type(x) is not str for x in kw):
+                out.append(("kwargs", "grey", vclass(kw)))
+    return out
+
+
+def wire_diff(spec, n1, n2):
+    """Name of the first place where two norm_wire() results differ."""
+    if n1 is None or n2 is None:
+        return "shape"
+    names = ["type"] + [p.name for p in spec.layout] + ["args", "kwargs", "extra"]
+    # optional dict positions may be dropped by norm_wire: align by kind
+    if len(n1) != len(n2):
+        return "length"
+    for i, (a, b) in enumerate(zip(n1, n2)):
+        if a != b:
+            nm = names[min(i, len(names) - 1)]
+            if a[0] == "d" and b[0] == "d" and i <= len(spec.layout) and spec.dictpos is not None:
+                da, db = dict(a[1]), dict(b[1])
+                for k in sorted(set(da) | set(db), key=repr):
+                    if da.get(k) != db.get(k):
+                        return "%s.%s" % (spec.dictname, k)
+            return nm
+    return None
+
+
+# ------------------------------------------------------------------------------------------------
+# independent encoders / decoders for the four wire formats (plain third-party libraries)
+# ------------------------------------------------------------------------------------------------
+
+def _json_binconv_dec(v):
+    """Independent reading of the WAMP JSON binary convention (string starting with \\0 = base64)."""
+    import base64
+
+    if type(v) is str and v[:1] == "\x00":
+        return base64.b64decode(v[1:])
+    if type(v) is list:
+        return [_json_binconv_dec(x) for x in v]
+    if type(v) is dict:
+        return {_json_binconv_dec(k): _json_binconv_dec(x) for k, x in v.items()}
+    return v
+
+
+def _json_binconv_enc(v):
+    import base64
+
+    if type(v) is bytes:
+        return "\x00" + base64.b64encode(v).decode("ascii")
+    if type(v) in (list, tuple):
+        return [_json_binconv_enc(x) for x in v]
+    if type(v) is dict:
+        return {k: _json_binconv_enc(x) for k, x in v.items()}
+    return v
+
+
+def lib_encode(base, obj):
+    """Encode one raw message with the plain library (no batching frame)."""
+    if base == "json":
+        import json
+        return json.dumps(_json_binconv_enc(obj), separators=(",", ":"), ensure_ascii=False).encode("utf8")
+    if base == "msgpack":
+        import msgpack
+        return msgpack.packb(obj, use_bin_type=True)
+    if base == "cbor":
+        import cbor2
+        return cbor2.dumps(obj)
+    import bjdata
+    return bjdata.dumpb(obj)
+
+
+def lib_frame(base, chunks, batched):
+    if not batched:
+        assert len(chunks) == 1
+        return chunks[0]
+    if base == "json":
+        return b"".join(c + b"\x18" for c in chunks)
+    return b"".join(len(c).to_bytes(4, "big") + c for c in chunks)
+
+
+def independent_decode(sid, data, batched):
+    """Decode produced bytes with the plain third-party library -> list of raw messages (or raises)."""
+    import json
+
+    base = sid.split(".")[0]
+    if base == "json":
+        text = data.decode("utf-8")          # text => must be valid UTF-8
+        if batched:
+            chunks = text.split("\x18")
+            if chunks[-1] != "":
+                raise ValueError("batched JSON does not end with the \\x18 delimiter")
+            chunks = chunks[:-1]
+        else:
+            chunks = [text]
+        return [_json_binconv_dec(json.loads(c)) for c in chunks]
+    if base == "msgpack":
+        import msgpack
+        dec = lambda b: msgpack.unpackb(b, raw=False)   # noqa
+    elif base == "cbor":
+        import cbor2
+        dec = cbor2.loads
+    else:
+        import bjdata
+        dec = bjdata.loadb
+    if not batched:
+        return [dec(data)]
+    out, i = [], 0
+    while i < len(data):
+        n = int.from_bytes(data[i:i + 4], "big")
+        if i + 4 + n > len(data) or i + 4 > len(data):
+            raise ValueError("length prefix runs past the end")
+        out.append(dec(data[i + 4:i + 4 + n]))
+        i += 4 + n
+    return out
 
 
 # ------------------------------------------------------------------------------------------------
@@ -1051,8 +1195,13 @@ def admissible(spec, f):
     return True
 
 
-def gen_cases(spec, rng, tier, draws=1):
-    """Yield (label, mode, fields, PayloadGen) for every generated valid message of this class."""
+def gen_cases(spec, seed, tier, draws=1, part=0, parts=1):
+    """Yield (k, label, mode, fields, PayloadGen) for the generated valid messages of this class that fall
+    into shard ``part`` of ``parts``.  Case ``k`` depends only on (seed, class, k): shards agree on the
+    enumeration without generating each other's payloads."""
+    import random
+
+    rng = random.Random("%s/%s/subsets" % (seed, spec.name))
     opts, subsets = option_subsets(spec, rng, tier)
     modes = PAYLOAD_MODES if spec.payload else ["none"]
     roles_opt = spec.opt_by_key.get("roles")
@@ -1070,24 +1219,28 @@ def gen_cases(spec, rng, tier, draws=1):
         for mode in mlist:
             for d in range(draws):
                 k += 1
-                pg = PayloadGen(rng)
-                f = required_fields(spec, k, sub)
+                if k % parts != part:
+                    continue
+                crng = random.Random("%s/%s/%d" % (seed, spec.name, k))
+                kk = k + crng.randrange(1000) * (1 if seed else 0)
+                pg = PayloadGen(crng)
+                f = required_fields(spec, kk, sub)
                 for i in sub:
                     o = opts[i]
                     pl = pool(spec, o)
-                    f[o.attr] = pl[(k + i) % len(pl)]
+                    f[o.attr] = pl[(kk + i) % len(pl)]
                 if roles_opt is not None:
                     pl = pool(spec, roles_opt)
-                    f["roles"] = pl[k % len(pl)]
-                if spec.custom and k % 3 == 0:
-                    f["custom"] = [{"x_abc": 1}, {"x_": None, "x_a1": {"n": [1, 2]}}][k % 2]
+                    f["roles"] = pl[kk % len(pl)]
+                if spec.custom and kk % 3 == 0:
+                    f["custom"] = [{"x_abc": 1}, {"x_": None, "x_a1": {"n": [1, 2]}}][kk % 2]
                 # pattern URIs follow the match policy
                 if spec.name in ("Subscribe", "Register"):
                     m = f.get("match")
-                    if m == "prefix" and k % 2:
-                        f[spec.layout[-1].attr] = URIS_PREFIX[k % len(URIS_PREFIX)]
-                    elif m == "wildcard" and k % 2:
-                        f[spec.layout[-1].attr] = URIS_WILDCARD[k % len(URIS_WILDCARD)]
+                    if m == "prefix" and kk % 2:
+                        f[spec.layout[-1].attr] = URIS_PREFIX[kk % len(URIS_PREFIX)]
+                    elif m == "wildcard" and kk % 2:
+                        f[spec.layout[-1].attr] = URIS_WILDCARD[kk % len(URIS_WILDCARD)]
                 if spec.name in ("Unsubscribed", "Unregistered"):
                     key = "subscription" if spec.name == "Unsubscribed" else "registration"
                     if f.get(key) is not None:
@@ -1095,9 +1248,60 @@ def gen_cases(spec, rng, tier, draws=1):
                 for o in spec.opts:
                     if o.requires and f.get(o.attr) and f.get(o.requires) is None:
                         ro = spec.opt_by_attr[o.requires]
-                        f[o.requires] = pool(spec, ro)[k % len(pool(spec, ro))]
-                apply_payload_mode(f, mode, rng, pg, k)
+                        f[o.requires] = pool(spec, ro)[kk % len(pool(spec, ro))]
+                apply_payload_mode(f, mode, crng, pg, kk)
                 if not admissible(spec, f):
                     continue
                 label = "%s/%s" % (spec.name, "+".join(opts[i].key for i in sub) or "-")
-                yield label, mode, f, pg
+                yield k, label, mode, f, pg
+
+
+# ------------------------------------------------------------------------------------------------
+# JSON-safe encoding of cases for replay files
+# ------------------------------------------------------------------------------------------------
+
+EXOTIC = {}
+
+
+def jenc(v):
+    if v is ABSENT:
+        return {"$absent": 1}
+    if v is None or type(v) in (bool, int, str):
+        return v
+    if type(v) is float:
+        return v if v == v and v not in (float("inf"), float("-inf")) else {"$f": repr(v)}
+    if type(v) in (bytes, bytearray, memoryview):
+        return {"$b": bytes(v).hex()}
+    if type(v) is tuple:
+        return {"$t": [jenc(x) for x in v]}
+    if type(v) is list:
+        return [jenc(x) for x in v]
+    if type(v) is dict:
+        return {"$d": [[jenc(k), jenc(x)] for k, x in v.items()]}
+    for name, x in EXOTIC.items():
+        if x is v:
+            return {"$x": name}
+    return {"$x": repr(v)[:60]}
+
+
+def jdec(v):
+    if type(v) is list:
+        return [jdec(x) for x in v]
+    if type(v) is dict:
+        if "$absent" in v:
+            return ABSENT
+        if "$f" in v:
+            return float(v["$f"])
+        if "$b" in v:
+            return bytes.fromhex(v["$b"])
+        if "$t" in v:
+            return tuple(jdec(x) for x in v["$t"])
+        if "$d" in v:
+            return {_hashable(jdec(k)): jdec(x) for k, x in v["$d"]}
+        if "$x" in v:
+            return EXOTIC.get(v["$x"], v["$x"])
+    return v
+
+
+def _hashable(k):
+    return tuple(k) if type(k) is list else k
